@@ -181,6 +181,11 @@ func c13body(cfg c13cfg) func() {
 		if !working(cur, "s0", "initial") {
 			return
 		}
+		if hx.Thorough() {
+			// from here on (losses, retry loops, reconnections) single departures from the default
+			// schedule are explored too
+			vrt.Quiet(false)
+		}
 		for li, fault := range cfg.faults {
 			// keys name the oracle clause and the kind of fault; the other dimensions are in the detail
 			clause := fmt.Sprintf("fault=%s", fault)
@@ -315,7 +320,7 @@ func TestVerifC13(t *testing.T) {
 	faults := []string{"drop", "drop-after-stanza", "graceful-close", "stream-error-other", "stream-error-conflict"}
 	var scs []hx.Scenario
 	add := func(c c13cfg) {
-		scs = append(scs, hx.Scenario{Name: c.name(), Opt: vrt.Options{Bound: 0, Horizon: 200000}, Body: c13body(c), Verdict: c13verdict})
+		scs = append(scs, hx.Scenario{Name: c.name(), Opt: vrt.Options{Bound: thoroughBound(1), Horizon: 200000}, Body: c13body(c), Verdict: c13verdict})
 	}
 	for _, sm := range []bool{false, true} {
 		for _, f := range faults {
